@@ -14,6 +14,7 @@ from . import shadow
 from .common import CheckerError
 
 KINDS = ("bool", "int", "real", "complex")
+INDEX_OBLIG = [None]
 
 
 def dim_term(d):
@@ -51,11 +52,19 @@ def kind_of(x):
         return "complex"
     if isinstance(x, (cx.SInt,)):
         return "int"
+    import numpy as _n
+    if isinstance(x, (_n.ndarray, _n.generic)):
+        return {"b": "bool", "i": "int", "u": "int", "f": "real", "c": "complex"}.get(_n.asarray(x).dtype.kind, "real")
     raise CheckerError(f"kind of {type(x).__name__}")
 
 
 def shape_of(x):
-    return x.shape if isinstance(x, SArr) else ()
+    if isinstance(x, SArr):
+        return x.shape
+    import numpy as _n
+    if isinstance(x, (_n.ndarray, _n.generic)):
+        return tuple(int(d) for d in _n.shape(x))
+    return ()
 
 
 def bdim(a, b):
@@ -109,6 +118,54 @@ class SArr:
     def __bool__(self):
         raise CheckerError("rule body branches on array VALUES (outside the shape abstraction)")
 
+    def __getitem__(self, idx):
+        """basic indexing (ints, slices with step None/1/-1, None, Ellipsis) with symbolic bounds; NumPy/Python bounds become obligations"""
+        idx = idx if isinstance(idx, tuple) else (idx,)
+        n_real = sum(1 for i in idx if i is not None and i is not Ellipsis)
+        if any(isinstance(i, (list, SArr)) for i in idx):
+            raise shadow.NotModelled("advanced indexing")
+        out, pos = [], 0
+        for i in idx:
+            if i is None:
+                out.append(1)
+            elif i is Ellipsis:
+                k = len(self.shape) - n_real
+                out.extend(self.shape[pos:pos + k])
+                pos += k
+            elif isinstance(i, slice):
+                d = self.shape[pos]
+                if i.step not in (None, 1, -1):
+                    raise shadow.NotModelled("stepped slice")
+                if i.step == -1 and (i.start is not None or i.stop is not None):
+                    raise shadow.NotModelled("bounded reversed slice")
+
+                def nrm(v, default):
+                    if v is None:
+                        return default
+                    if type(v).__module__ == "numpy":
+                        v = int(v)
+                    if isinstance(v, int) and v < 0:
+                        return d + v
+                    return v
+                lo, hi = nrm(i.start, 0), nrm(i.stop, d)
+                if INDEX_OBLIG[0] is not None:
+                    INDEX_OBLIG[0]("slice-within-bounds(no clipping)", z3.And(dim_term(lo) >= 0, dim_term(lo) <= dim_term(hi), dim_term(hi) <= dim_term(d)))
+                out.append(hi - lo if not (isinstance(lo, int) and lo == 0) else hi)
+                pos += 1
+            else:
+                d = self.shape[pos]
+                if INDEX_OBLIG[0] is not None:
+                    iv = dim_term(i)
+                    INDEX_OBLIG[0]("index-within-bounds", z3.And(iv >= -dim_term(d), iv < dim_term(d)))
+                pos += 1
+        out.extend(self.shape[pos:])
+        return SArr(tuple(out), self.kind)
+
+    def swapaxes(self, a, b):
+        s = list(self.shape)
+        s[a], s[b] = s[b], s[a]
+        return SArr(tuple(s), self.kind)
+
     def __repr__(self):
         return f"SArr({self.shape}, {self.kind})"
 
@@ -155,7 +212,13 @@ class ShapeVec(list):
             list.__setitem__(self, i, v)
 
     def __eq__(self, o):
-        raise CheckerError("comparison of a shape vector")
+        return [d == (o[i] if isinstance(o, (list, tuple)) else o) for i, d in enumerate(self)]
+
+    def __gt__(self, o):
+        return [d > (o[i] if isinstance(o, (list, tuple)) else o) for i, d in enumerate(self)]
+
+    def __ne__(self, o):
+        return [d != (o[i] if isinstance(o, (list, tuple)) else o) for i, d in enumerate(self)]
 
     __hash__ = None
 
@@ -190,6 +253,7 @@ class Requires(Exception):
 
 def make_namespaces(oblig):
     """abstract `anp` and `onp` for the shape engine.  oblig(name, z3 formula) records a NumPy-acceptance obligation."""
+    INDEX_OBLIG[0] = oblig
     def unary(x, *a, **k):
         return SArr(shape_of(x), promote("real", kind_of(x)))
 
@@ -241,9 +305,126 @@ def make_namespaces(oblig):
             return prod(x)
         return a_sum(x, axis, keepdims)
 
+    def a_transpose(x, axes=None):
+        sh = shape_of(x)
+        if axes is None:
+            return SArr(sh[::-1], kind_of(x))
+        axes = [int(a) for a in axes]
+        nd = len(sh)
+        if sorted(a % nd for a in axes) != list(range(nd)):
+            raise ValueError("axes don't match array")
+        return SArr(tuple(sh[a % nd] for a in axes), kind_of(x))
+
+    def a_swapaxes(x, a, b):
+        return x.swapaxes(a, b)
+
+    def a_moveaxis(x, src, dst):
+        nd = len(shape_of(x))
+        srcs = [src] if isinstance(src, int) else list(src)
+        dsts = [dst] if isinstance(dst, int) else list(dst)
+        srcs = [a % nd for a in srcs]
+        dsts = [a % nd for a in dsts]
+        rest = [a for a in range(nd) if a not in srcs]
+        res = [None] * nd
+        for s_, d_ in zip(srcs, dsts):
+            res[d_] = s_
+        it = iter(rest)
+        res = [r if r is not None else next(it) for r in res]
+        return SArr(tuple(shape_of(x)[a] for a in res), kind_of(x))
+
+    def a_rollaxis(x, axis, start=0):
+        nd = len(shape_of(x))
+        axis = axis % nd
+        if start < 0:
+            start += nd
+        if not 0 <= start <= nd:
+            raise ValueError("rollaxis: start out of range")
+        axes = list(range(nd))
+        if axis < start:
+            start -= 1
+        axes.remove(axis)
+        axes.insert(start, axis)
+        return SArr(tuple(shape_of(x)[a] for a in axes), kind_of(x))
+
+    def a_ravel(x, order=None):
+        return SArr((prod(list(shape_of(x))),), kind_of(x))
+
+    def a_squeeze(x, axis=None):
+        sh = list(shape_of(x))
+        if axis is None:
+            return SArr(tuple(d for d in sh if not is_one(d)), kind_of(x))
+        axs = (axis,) if isinstance(axis, int) else tuple(axis)
+        axs = [a % len(sh) for a in axs]
+        for a in axs:
+            if not is_one(sh[a]):
+                oblig("numpy-accepts-squeeze(axis has size 1)", dim_term(sh[a]) == 1)
+        return SArr(tuple(d for i_, d in enumerate(sh) if i_ not in axs), kind_of(x))
+
+    def a_concat_args(axis, *arrs):
+        sh0 = list(shape_of(arrs[0]))
+        ax = axis % len(sh0)
+        tot = sh0[ax]
+        for a_ in arrs[1:]:
+            tot = tot + shape_of(a_)[ax]
+        sh0[ax] = tot
+        return SArr(tuple(sh0), promote(*[kind_of(a_) for a_ in arrs]))
+
+    def a_split(g, n_, axis=0):
+        if not isinstance(n_, int):
+            raise shadow.NotModelled("split at indices")
+        sh = list(shape_of(g))
+        d = sh[axis]
+        if n_ == 1:
+            return [g]
+        q = cx.SInt(z3.FreshInt("q"))
+        cx.assume(cx.SBool(dim_term(q) * n_ == dim_term(d)))
+        cx.assume(q >= 0)
+        sh[axis] = q
+        return [SArr(tuple(sh), kind_of(g)) for _ in range(n_)]
+
+    def a_pad(x, width, mode="constant", **kw):
+        import numpy as _n
+        pairs = _n.lib._arraypad_impl._as_pairs(width, len(shape_of(x)), as_index=True)
+        return SArr(tuple(d + int(lo) + int(hi) for d, (lo, hi) in zip(shape_of(x), pairs)), kind_of(x))
+
+    def a_rot90(x, k=1, axes=(0, 1)):
+        return x.swapaxes(axes[0], axes[1]) if k % 2 else SArr(shape_of(x), kind_of(x))
+
+    def a_matmul(a, b):
+        sa, sb = shape_of(a), shape_of(b)
+        if not sa or not sb:
+            raise ValueError("matmul: 0-d operand")
+        a2 = (1,) + sa if len(sa) == 1 else sa
+        b2 = sb + (1,) if len(sb) == 1 else sb
+        cx.assume(cx.SBool(dim_term(a2[-1]) == dim_term(b2[-2])))
+        batch = bshape(a2[:-2], b2[:-2])
+        res = list(batch) + [a2[-2], b2[-1]]
+        if len(sb) == 1:
+            res.pop(-1)
+        if len(sa) == 1:
+            res.pop(-2 if len(sb) != 1 else -1)
+        return SArr(tuple(res), promote(kind_of(a), kind_of(b)))
+
+    def a_atleast(nmin):
+        def f(*xs):
+            outs = []
+            for x in xs:
+                sh = shape_of(x)
+                if len(sh) >= nmin:
+                    new = sh
+                elif nmin == 1:
+                    new = (1,)
+                elif nmin == 2:
+                    new = (1, 1) if len(sh) == 0 else (1,) + sh
+                else:
+                    new = (1, 1, 1) if len(sh) == 0 else ((1,) + sh + (1,) if len(sh) == 1 else sh + (1,))
+                outs.append(SArr(new, kind_of(x)))
+            return outs[0] if len(outs) == 1 else outs
+        return f
+
     binary = lambda x, y, *a, **k: SArr(bshape(shape_of(x), shape_of(y)), promote("real", kind_of(x), kind_of(y)))
     cmp_ = lambda x, y, *a, **k: SArr(bshape(shape_of(x), shape_of(y)), "bool")
-    impls = dict(ndim=lambda x: len(shape_of(x)), shape=lambda x: shape_of(x), iscomplexobj=lambda x: kind_of(x) == "complex", isscalar=lambda x: not isinstance(x, SArr),
+    impls = dict(ndim=lambda x: len(shape_of(x)), shape=lambda x: shape_of(x), iscomplexobj=lambda x: kind_of(x) == "complex", isscalar=lambda x: isinstance(x, (int, float, complex, cx.SInt)),
                  result_type=lambda *xs: DT(promote(*[kind_of(x) for x in xs])), metadata=lambda x: (shape_of(x), len(shape_of(x)), DT(kind_of(x)), kind_of(x) == "complex"),
                  sum=a_sum, mean=a_mean, prod=a_prod, repeat=a_repeat, size=lambda x: prod(shape_of(x)), array=lambda v, *a, **k: ShapeVec(v) if isinstance(v, (list, tuple)) else v, max=a_sum, min=a_sum, amax=a_sum, amin=a_sum, var=a_mean, std=a_mean, reshape=a_reshape, where=a_where, real=a_real,
                  imag=a_real, zeros=a_zeros, ones=a_zeros, expand_dims=a_expand_dims, broadcast_to=a_broadcast_to, conj=same, conjugate=same, sign=same, floor=same,
@@ -253,6 +434,35 @@ def make_namespaces(oblig):
     for u in ("exp", "log", "sin", "cos", "tan", "sinh", "cosh", "tanh", "sqrt", "arcsin", "arccos", "arctan", "arcsinh", "arccosh", "arctanh", "log2", "log10", "log1p", "expm1", "exp2",
               "square", "reciprocal", "sinc", "deg2rad", "rad2deg", "degrees", "radians"):
         impls[u] = unary
+    def a_tile(x, reps):
+        reps = (reps,) if isinstance(reps, int) else tuple(reps)
+        sh = tuple(shape_of(x))
+        nd = max(len(sh), len(reps))
+        sh = (1,) * (nd - len(sh)) + sh
+        reps = (1,) * (nd - len(reps)) + reps
+        return SArr(tuple(d * r for d, r in zip(sh, reps)), kind_of(x))
+
+    def a_argsort(v, *a, **k):
+        import numpy as _n
+        return [int(t) for t in _n.argsort([int(q) for q in v])]
+
+    impls.update(tile=a_tile, zeros_like=same, ones_like=same, argsort=a_argsort)
+    impls.update(transpose=a_transpose, swapaxes=a_swapaxes, moveaxis=a_moveaxis, rollaxis=a_rollaxis, ravel=a_ravel, squeeze=a_squeeze, concatenate_args=a_concat_args,
+                 split=a_split, pad=a_pad, rot90=a_rot90, matmul=a_matmul, atleast_1d=a_atleast(1), atleast_2d=a_atleast(2), atleast_3d=a_atleast(3),
+                 flipud=same, fliplr=same, roll=same, triu=same, tril=same, cumsum=lambda x, axis=None: (same(x) if axis is not None else a_ravel(x)),
+                 clip=lambda x, lo, hi: SArr(bshape(shape_of(x), shape_of(lo), shape_of(hi)), promote(kind_of(x), kind_of(lo), kind_of(hi))))
+    import numpy as _rnp
+
+    def _abstract(v):
+        return isinstance(v, (SArr, cx.SInt, ShapeVec, DT)) or (isinstance(v, (list, tuple)) and any(_abstract(e) for e in v))
+
+    def _with_fallback(nm, f):
+        def g(*a, **k):
+            if hasattr(_rnp, nm) and not any(_abstract(v) for v in a) and not any(_abstract(v) for v in k.values()):
+                return getattr(_rnp, nm)(*a, **k)   # purely concrete arguments (widths, axes, ...): NumPy itself
+            return f(*a, **k)
+        return g
+    impls = {nm: _with_fallback(nm, f) for nm, f in impls.items()}
     anp = shadow.Namespace("anp", impls, consts=dict(pi=3.141592653589793, newaxis=None))
 
     class ONP:
@@ -263,6 +473,7 @@ def make_namespaces(oblig):
         ones = staticmethod(a_zeros)
         sum = staticmethod(a_sum)
         logical_and = staticmethod(lambda a, b: [x and y for x, y in zip(a, b)])
+        mod = staticmethod(lambda v, n: [int(x) % int(n) for x in v] if isinstance(v, (list, tuple)) else int(v) % int(n))
         where = staticmethod(lambda v: ([i for i, t in enumerate(v) if t],))
 
         class lib:
